@@ -147,7 +147,7 @@ class Expr(object):
         return self.visit(lambda e:my_replace(e, dct))
     def canonize(self):
         def my_canon(e):
-            if isinstance(e, ExprOp):
+            if isinstance(e, ExprOp) and e.op in op_assoc:
                 args = canonize_expr_list(e.args)
                 return ExprOp(e.op, *args)
             elif isinstance(e, ExprCompose):
